@@ -67,8 +67,7 @@ func Match(fingerprint, target any) bool {
 			return false
 		}
 	case int, int8, int16, int32, int64, uint, uint8, uint16, uint32, uint64, gen.Int:
-		i0, _ := asInt(fp)
-		if i1, ok := asInt(target); !ok || i0 != i1 {
+		if !intEqual(fp, target) {
 			return false
 		}
 	case float32, float64, gen.Float:
@@ -136,8 +135,7 @@ func diff(v0, v1 any, one bool, ignores ...Path) (diffs []Path) {
 			diffs = append(diffs, Path{nil})
 		}
 	case int, int8, int16, int32, int64, uint, uint8, uint16, uint32, uint64, gen.Int:
-		i0, _ := asInt(v0)
-		if i1, ok := asInt(v1); !ok || i0 != i1 {
+		if !intEqual(v0, v1) {
 			diffs = append(diffs, Path{nil})
 		}
 	case float32, float64, gen.Float:
@@ -361,12 +359,46 @@ func floatEqual(f float64, v any) bool {
 		f1, _ := asFloat(v)
 		return f == f1
 	}
+	if u, ok := asBigUint(v); ok {
+		// 2^63 <= f < 2^64 makes uint64(f) well defined; such a float is integral.
+		return 9223372036854775808.0 <= f && f < 18446744073709551616.0 && uint64(f) == u
+	}
 	if i, ok := asInt(v); ok { // the integer types
 		// -2^63 <= f < 2^63 makes int64(f) well defined, an integral f makes it exact.
 		return -9223372036854775808.0 <= f && f < 9223372036854775808.0 &&
 			float64(int64(f)) == f && int64(f) == i
 	}
 	return false
+}
+
+// asBigUint returns the value of an unsigned integer that is too large for an
+// int64, the values asInt wraps around to the negative numbers.
+func asBigUint(v any) (u uint64, ok bool) {
+	switch tv := v.(type) {
+	case uint64:
+		u = tv
+	case uint:
+		u = uint64(tv)
+	}
+	return u, 1<<63 <= u
+}
+
+// intEqual reports whether v1 is a number with the same value as the integer
+// v0.
+func intEqual(v0, v1 any) bool {
+	switch v1.(type) {
+	case float64, float32, gen.Float:
+		f, _ := asFloat(v1)
+		return floatEqual(f, v0)
+	}
+	u0, big0 := asBigUint(v0)
+	u1, big1 := asBigUint(v1)
+	if big0 || big1 {
+		return big0 && big1 && u0 == u1
+	}
+	i0, _ := asInt(v0)
+	i1, ok := asInt(v1)
+	return ok && i0 == i1
 }
 
 func ignoreIndex(i int, ignores []Path) bool {
